@@ -14,7 +14,7 @@ CHECKS = {
         design="DESIGN 4 C16, notes/C16.md"),
     "C13": dict(
         text="proof - Coq theorems over executable models of convert_rust_extension/name_match and of semver 1.0.26's matcher, unbounded in versions, requirement ASTs, crate tables, paths and policies; the matcher is proved equal to an independent interval specification of Cargo's documented semantics on all release versions and on all versions for requirements written with full versions",
-        note="models tied on every run to the real pipeline (2.9k-case decision table) and to the real semver crate (87k pairs); parsers (serde, VersionReq::parse) are inputs; no axioms; one known finding C13-F1 (unvalidated extension path)",
+        note="models tied on every run to the real pipeline (2.9k-case decision table) and to the real semver crate (87k pairs); parsers (serde, VersionReq::parse) are inputs; the syn TypePath verdict for the path is an input too; no axioms; C13-F1 (unvalidated extension path) repaired by fix 31fad76, its witnesses are regression cases",
         technique="verified algorithm model + independent specification + correspondence + oracle from the text",
         design="DESIGN 4 C13, notes/C13.md"),
     "C15": dict(
@@ -47,6 +47,11 @@ CHECKS = {
         note="typing for structs/maps/enums/natives and exactness for composite kinds rest on the per-run agreement of the model with rustc and serde on the compiled world, not on a proof; expr_typed/eval_expr are models; the regex engine is a parameter instantiated from the real regress crate; findings F7, F9-F12 recorded, F1-F6 and F8 repaired by fix commits",
         technique="verified algorithm model + K1 token-level correspondence with the real validate_value/output_value + K5 compiled-world direct evaluation with jsonschema oracle; finding classes decided by Coq class predicates on the dumped IR",
         design="DESIGN 4 C06, notes/C06.md"),
+    "C12": dict(
+        text="proof (Coq, no axioms) that every hash-ordered collection in typify's sources is consumed order-independently (the macro's impls list is a sorted set since fix 9ffca46: its Vec is a function of the set), that JSON object member order is erased by parsing and that OutputSpace depends on insertion order only within one key; inventory of hash/env/time/thread/rand sites regenerated from the sources and re-proved covered on every run",
+        note="partial: hash seeding of the real runtime is covered by the inventory translator + multi-process comparison (8 fresh processes x 8 encodings per case), not by a theorem; dependencies' internal hash use is covered by the byte comparison only; macro front-end emulated in quick tier, real macro expansion in thorough tier",
+        technique="Coq theorems over an executable model with an explicit enumeration-order argument per hash site (Permutation-invariance) + syn inventory translator + multi-process byte comparison",
+        design="DESIGN 4 C12, notes/C12.md"),
 }
 
 NOT_YET = "not yet built in this round (planned, see DESIGN.md section 7)"
